@@ -156,6 +156,36 @@ def oracle_filter(ck, rng):
         for fl in fails:
             ck.violation(what=f"low-pass filter law violated: {fl}", inp=c, key={"site": "filter", "law": fl, "odd_last": sh[2] % 2 == 1},
                          oracle="filter_laws")
+    # every input shape (1-D ... 4-D) and every accepted input type (ndarray, dask array, nested list): the backend Fourier variant is the
+    # transform of the backend real-space variant, and both agree with the numpy-level filter
+    import dask.array as da
+    for sh in ((17,), (9, 12), (6, 7, 8), (3, 6, 5, 8), (2, 3, 4, 5, 6)):
+        x4 = rng.normal(size=sh).astype(np.float32)
+        for cutoff in (0.25, 0.4):
+            ck.oracle_count("any_dimension", 1, 1)
+            try:
+                r_ = np.asarray(xp.lowpass_filter(x4, cutoff)); f_ = np.asarray(xp.lowpass_filter_ft(x4, cutoff)); u_ = np.asarray(lu(x4, cutoff)); uf_ = np.asarray(lfu(x4, cutoff))
+                bad = []
+                if r_.shape != x4.shape or f_.shape != x4.shape: bad.append(f"shapes {r_.shape} / {f_.shape} for an input of shape {x4.shape}")
+                elif np.abs(np.fft.ifftn(f_).real - r_).max() > 1e-4: bad.append("the backend Fourier variant is not the transform of the backend real-space variant")
+                elif np.abs(r_ - u_).max() > 1e-4 or np.abs(f_ - uf_).max() > 1e-3 * max(1.0, float(np.abs(uf_).max())): bad.append("backend-level and numpy-level results differ")
+            except Exception as e:  # noqa
+                bad = [f"raised {type(e).__name__}: {e}"]
+            for b_ in bad:
+                ck.violation(what=f"{len(sh)}-D input of shape {sh}, cutoff {cutoff}: {b_}", inp={"shape": list(sh), "cutoff": cutoff}, key={"site": "any-dimension", "ndim": len(sh)},
+                             oracle="any_dimension")
+    xw = rng.normal(size=(6, 7, 8)) + 3.0e7
+    for kind, arg in (("dask array", da.from_array(xw, chunks=(3, 7, 8))), ("nested list", xw.tolist())):
+        ck.oracle_count("input_types", 1, 1)
+        try:
+            a_ = np.asarray(xp.lowpass_filter(arg, 0.3)); b_ = np.asarray(xp.lowpass_filter(xw, 0.3)); f_ = np.asarray(xp.lowpass_filter_ft(arg, 0.3))
+            bad = None
+            if np.abs(a_ - b_).max() > 0.05: bad = f"differs from the same image given as an ndarray by {np.abs(a_ - b_).max():.3g} (unit-variance image on a level of 3e7)"
+            elif np.abs(np.fft.ifftn(f_).real - b_).max() > 0.05: bad = "Fourier variant is not the transform of the filtered image"
+        except Exception as e:  # noqa
+            bad = f"raised {type(e).__name__}: {e}"
+        if bad:
+            ck.violation(what=f"backend low-pass of a float64 image given as a {kind}: {bad}", inp={"input": kind}, key={"site": "input-type", "kind": kind}, oracle="input_types")
     # double-precision and wide-integer images with a grey level far above their contrast: numpy-level and backend-level filters agree, keep the mean
     # and stay linear at the precision of the input
     for dt, off in ((np.float64, 1.0e6), (np.int32, 3_000_000), (np.float64, -2.5e5)):
